@@ -1,21 +1,22 @@
 #!/bin/bash
+V=${VERIF_DIR:-$(cd "$(dirname "$(readlink -f "$0")")/.." && pwd)}
 # usage: run_benign.sh [tier] [id-glob]  -- behaviour-preserving changes (benign/<n>/patch.diff): every check must stay silent.
 # For each patch: scratch copy of /repo + patch, test suite (must pass), then all 20 checks; writes benign/RESULTS-<tier>.md
 TIER=${1:-quick}; GLOB=${2:-*}
-cd /verif/benign || exit 1
+cd $V/benign || exit 1
 OUT=$(mktemp -d /tmp/benrun-XXXXXX)
 for d in $GLOB/; do
   bid=${d%/}; [ -f "$bid/patch.diff" ] || continue
   D=$(mktemp -d /tmp/ben-XXXXXX)
   rsync -a --exclude .git /repo/ "$D/"
-  if ! (cd "$D" && patch -p1 -s --no-backup-if-mismatch < "/verif/benign/$bid/patch.diff"); then echo "$bid PATCH-FAILED" > "$OUT/$bid.res"; rm -rf "$D"; continue; fi
+  if ! (cd "$D" && patch -p1 -s --no-backup-if-mismatch < "$V/benign/$bid/patch.diff"); then echo "$bid PATCH-FAILED" > "$OUT/$bid.res"; rm -rf "$D"; continue; fi
   if [ -z "$SKIP_TESTS" ]; then
     T=$(cd "$D" && PYTHONPATH="$D" /venv/bin/python -m pytest -q -p no:cacheprovider -n 16 -x 2>&1 | tail -1)
   else T="(tests skipped)"; fi
   : > "$OUT/$bid.res"
   for n in $(seq -w 1 20); do
     id=C$n
-    VERIF_REPO="$D" VERIF_OUT="$D/.vfout" /verif/check "$id" "$TIER" > "$OUT/$bid.$id.log" 2>&1
+    VERIF_REPO="$D" VERIF_OUT="$D/.vfout" $V/check "$id" "$TIER" > "$OUT/$bid.$id.log" 2>&1
     rc=$?
     if [ $rc != 0 ]; then echo "$id rc=$rc $(grep -m1 -E 'VIOLATION|signature=|HARNESS' "$OUT/$bid.$id.log" | cut -c1-200)" >> "$OUT/$bid.res"; fi
   done
@@ -31,6 +32,6 @@ for f in "$OUT"/*.res; do
   bid=$(basename "$f" .res)
   if [ -s "$f" ]; then echo "| $bid | $(tr '\n' ';' < "$f") |"; else echo "| $bid | none (20 checks exit 0) |"; fi
 done
-} > /verif/benign/RESULTS-$TIER.md
-cat /verif/benign/RESULTS-$TIER.md
+} > $V/benign/RESULTS-$TIER.md
+cat $V/benign/RESULTS-$TIER.md
 rm -rf "$OUT"
